@@ -72,7 +72,15 @@ const EDGE64: [u64; 14] = [
 ];
 
 fn val64(rng: &mut Rng) -> u64 {
-    match rng.below(4) {
+    match rng.below(5) {
+        4 => {
+            // halves: a register whose low word is zero or whose upper word is set (W-form instructions must ignore it)
+            match rng.below(3) {
+                0 => rng.next() << 32,
+                1 => (rng.next() << 32) | (rng.next() & 0xff),
+                _ => 0xffff_ffff_0000_0000 | (rng.next() & 0xffff_ffff),
+            }
+        }
         0 => *rng.pick(&EDGE64),
         1 => {
             // near an edge
@@ -404,7 +412,10 @@ fn gen_mov(g: &mut Gen, n: u64) {
     for sf in 0..2u32 {
         // ORR (shifted register) with Rn = 31: sf 01 01010 shift N Rm imm6 Rn Rd   (N=0)
         for _ in 0..(4 * n) {
-            let (rd, rm) = (g.r(), g.r());
+            let (rd, mut rm) = (g.r(), g.r());
+            if g.rng.chance(1, 4) {
+                rm = rd; // mov wN, wN: the zero-extension idiom
+            }
             let plain = g.rng.chance(3, 4);
             let shift = if plain { 0 } else { g.rng.below(4) as u32 };
             let imm6 = if plain { 0 } else { g.rng.below(64) as u32 };
